@@ -21,7 +21,6 @@ does not depend on how much the execution consumed, printed, nested or was given
 """
 import ast
 import builtins
-import os
 import importlib
 import inspect
 import io
@@ -201,9 +200,27 @@ def inputs_snippets(n):
 
 
 def endless_input_snippet(n):
-    # pedal itself gives up after MAXIMUM_INPUTS calls: an IOError raised inside pedal's input tracker
-    return _sized(["while True:", "    input()"], 1, "OSError", dict(exc=True), "inputs", n, tail=["P"],
-                  shape="inputs-endless", inputs=[])
+    """pedal itself gives up after MAXIMUM_INPUTS calls: an IOError raised inside pedal's input tracker.  The loop is
+    bounded all the same (a little beyond n), so that a tree WITHOUT such a limit cannot hang the check; whether n
+    really is that limit on this tree is probed first (`gives_up_at`)."""
+    return _sized(["for k in range(%d):" % (n + 10), "    input()", "v = 1 / 0"], 1, "OSError", dict(exc=True),
+                  "inputs", n, tail=["P"], shape="inputs-endless", inputs=[])
+
+
+def gives_up_at(n):
+    """Does the tree under test stop a program that asks for input n times?  (No: the program reaches its own
+    `1 / 0` - then n is some other limit, and the program's end is not the one written in the descriptor.)"""
+    key = ("gives-up", n)
+    if key not in _CACHE:
+        sn = endless_input_snippet(n)
+        op = {"entry": "run", "style": "none", "inject": False, "code": "\n".join(sn["lines"]) + "\n",
+              "term": ["R", sx.make_desc(sn, [["S", 2], ["P", 0]])], "shape": "probe", "inputs": []}
+        try:
+            o = sx.run_history([op])[0]
+            _CACHE[key] = o["exc"] != "ZeroDivisionError"
+        except Exception:
+            _CACHE[key] = False
+    return _CACHE[key]
 
 
 def depth_snippets(k):
@@ -343,13 +360,14 @@ ESSENTIAL_RENDERING = {
     "syntaxerror-position:('answer.py', 999, 5, 'x')", "syntaxerror-position:('answer.py', 1, 10 ** 6, 'x')",
     "syntaxerror-position:('answer.py', 0, 0, 'x')", "syntaxerror-position:('answer.py', 1, 1, None)",
     "exception-group", "chain-of-causes", "with-notes", "c:int-too-long", "systemexit-empty",
+    "class-name-empty", "syntaxerror-malformed-position:('answer.py', '3', 1, 'x')",
+    "syntaxerror-malformed-position:('answer.py', -4, 1, 'x')",
+    "syntaxerror-malformed-position:('answer.py', 1, 'a', 'x')", "syntaxerror-malformed-position:({}, 1, 2, 'x')",
 }
 
 
 def rendering_snippets():
-    out = _rendering_snippets()
-    if os.environ.get("VERIF_C04_PENDING"):
-        out += pending_snippets()
+    out = _rendering_snippets() + malformed_snippets()
     for sn in out:
         if sn["shape"] + ":" + sn.get("detail", "") in ESSENTIAL_RENDERING or sn["shape"] in ESSENTIAL_RENDERING:
             sn["essential"] = True
@@ -393,25 +411,25 @@ def _rendering_snippets():
     return out
 
 
-# Programs of these families that make run() RAISE on the unchanged tree (reported to the main session 2026-09-30;
-# enabled with VERIF_C04_PENDING=1 until they are repaired or recorded as open findings, then move them into
-# SYNTAX_POSITIONS / CLASS_NAMES above)
-PENDING_SYNTAX_POSITIONS = ["('answer.py', '3', 1, 'x')", "('answer.py', 1.5, 1, 'x')", "('answer.py', -4, 1, 'x')",
-                            "('answer.py', 1, 'a', 'x')"]
+# A SyntaxError made by hand whose position fields are not a position at all, and a class without a name: these
+# made run() RAISE on /repo until the fix: commits of 2026-09-30 ("a SyntaxError raised by student code with a
+# malformed position ...", "an exception class with an empty name ...")
+MALFORMED_SYNTAX_POSITIONS = [
+    "('answer.py', '3', 1, 'x')", "('answer.py', 1.5, 1, 'x')", "('answer.py', -4, 1, 'x')",
+    "('answer.py', 1, 'a', 'x')", "('answer.py', 1, 1, 'x', 1, [])", "('answer.py', [], 2, 'x')",
+    "({}, 1, 2, 'x')", "('answer.py', True, 1, 'x')", "('answer.py', 1, 1, 5, 'a', 'b')",
+]
 
 
-def pending_snippets():
+def malformed_snippets():
     out = []
-    for pos in PENDING_SYNTAX_POSITIONS:
+    for pos in MALFORMED_SYNTAX_POSITIONS:
         sn = _family(["raise SyntaxError('made by hand', %s)" % pos], 0, "SyntaxError", dict(exc=True),
                      "syntaxerror-malformed-position", pos)
         sn["keep_main"] = True
-        sn["essential"] = True
         out.append(sn)
-    sn = _family(["raise type('', (Exception,), {})('no name')"], 0, "", dict(exc=True), "class-name-empty", "",
-                 bases=["Exception"])
-    sn["essential"] = True
-    out.append(sn)
+    out.append(_family(["raise type('', (Exception,), {})('no name')"], 0, "", dict(exc=True), "class-name-empty", "",
+                       bases=["Exception"]))
     return out
 
 
@@ -437,6 +455,8 @@ def sized_snippets(rng=None):
                     sn["essential"] = True
                 out.append(sn)
     for n in sorted(lim["huge"]["inputs"]):
+        if not gives_up_at(n):
+            continue
         sn = endless_input_snippet(n)
         sn["essential"] = True
         sn["slow"] = True
